@@ -102,7 +102,10 @@ def obs_record(idx, case):
         why = grammar.same_grammar(G, pres, r["grammar"])
         if why:
             raise ToolError("rendering is not faithful (%s):\n%s" % (why, case["src"]))
-        rec["tables"].append(grammar.extract_tables(res["rust"], pres["ts"], pres["nts"]))
+        try:
+            rec["tables"].append(grammar.extract_tables(res["rust"], pres["ts"], pres["nts"]))
+        except grammar.MalformedTables as e:
+            case["malformed_tables"] = str(e)
         rec["tables"].append(grammar.hook_table(r["table"]))
         rec["machines"].append(r["machine"])
         return rec, None
@@ -147,10 +150,14 @@ def build_cases(tier, seed, wd, run):
     rng = random.Random(seed)
     cases = []
     tlc_results = []
-    universes = ["classics", "U2"] if tier == "quick" else ["classics", "U2", "U3a", "U3b"]
+    universes = ["classics", "U2", "U3a", "U3b"]
     for u in universes:
         gs, r = dump_universe(u, wd)
         tlc_results.append(r)
+        if tier == "quick" and u in ("U3a", "U3b"):
+            # the quick tier takes a seeded sample of the two larger universes (three-symbol right-hand sides; a third
+            # nonterminal), the thorough tier all of them
+            gs = rng.sample(gs, 1400 if u == "U3a" else 800)
         for G in gs:
             pres = grammar.present(G, rng)
             # vary declaration order of nonterminals (start need not come first) and terminals
@@ -168,7 +175,7 @@ def build_cases(tier, seed, wd, run):
         pres = grammar.present(G, rng, payload=None)
         cases.append({"G": G, "pres": pres, "src": grammar.render(G, pres), "origin": "random"})
     seen = set()
-    for _ in range(2500 if tier == "quick" else 40000):
+    for _ in range(1400 if tier == "quick" else 40000):
         G = bracket_grammar(rng)
         key = json.dumps(G, sort_keys=True)
         if key in seen:
@@ -224,7 +231,10 @@ def execute(tier, seed, run, wd):
     cases, tlcs = build_cases(tier, seed, wd, run)
     for r in tlcs:
         run.add_tlc(r)
+    t0 = __import__("time").time()
+    log("  [%.0fs] universes dumped" % 0)
     run_real(cases)
+    log("  [+%.0fs] kv gen" % (__import__("time").time() - t0))
     records = []
     for idx, c in enumerate(cases):
         rec, other = obs_record(idx, c)
@@ -232,7 +242,9 @@ def execute(tier, seed, run, wd):
         c["other"] = other
         if rec is not None:
             records.append(rec)
-    verdicts, results = judge(records, wd, shards=8 if tier == "quick" else 12)
+    log("  [+%.0fs] observations built" % (__import__("time").time() - t0))
+    verdicts, results = judge(records, wd, shards=14)
+    log("  [+%.0fs] judged" % (__import__("time").time() - t0))
     for r in results:
         run.add_tlc(r)
     for idx, c in enumerate(cases):
@@ -246,7 +258,7 @@ def trace_lines(case_id, c, r):
     lines = [{"ev": "grammar", "id": case_id, "g": grammar.tla_grammar(dict(G, nts=pres["nts"], ts=pres["ts"]))}]
     res = r["res"]
     evs = r.get("events", [])
-    lines += [e for e in evs if e["ev"] in ("first", "pop", "target")]
+    lines += [e for e in evs if e["ev"] in ("first_pass", "first", "pop", "target")]
     if res["t"] == "ok":
         m = r["machine"]
     elif res["t"] == "err" and res["err"]["v"] == "TableConflict":
@@ -335,7 +347,12 @@ def summarize(res):
 def check(prop, tier, seed):
     run = common.Run(prop, tier, seed)
     wd = common.workdir("pipeline_%s_%s" % (prop, tier))
+    # the design-level models do not depend on the code: they run in the background while the real code is exercised
+    bg = cf.ThreadPoolExecutor(max_workers=1)
+    design = bg.submit(design_level, prop, tier, run)
+    t0 = __import__("time").time()
     cases = execute(tier, seed, run, wd)
+    log("  [%.0fs] real code executed and judged (%d cases)" % (__import__("time").time() - t0, len(cases)))
     prefix = prop + ":"
     classes = {}
     for c in cases:
@@ -352,6 +369,8 @@ def check(prop, tier, seed):
             run.violation(replay_case(c, mine[0], "judge"))
         if prop == "C11" and c["rec"]["verdict"] == "conflict" and c.get("attached_file_mismatch"):
             run.violation(replay_case(c, "C11: attached grammar is not the validated input grammar: " + c["attached_file_mismatch"], "attached-file"))
+        if prop == "C17" and c.get("malformed_tables"):
+            run.violation(replay_case(c, "C17: the emitted tables are inconsistent with their own declaration: " + c["malformed_tables"], "malformed-tables"))
         # non-triviality bookkeeping
         if prop == "C04":
             for k in (j["classes"] or ["none"]):
@@ -388,13 +407,15 @@ def check(prop, tier, seed):
     fixed = [c for c in pool if c["origin"] == "classics" or c["origin"].startswith("repo:")]
     rest = [c for c in pool if c not in fixed]
     sample = fixed + rng.sample(rest, min(len(rest), 400 if tier == "quick" else 4000))
-    rejected = validate_traces(sample, wd, run, shards=6 if tier == "quick" else 12)
+    rejected = validate_traces(sample, wd, run, shards=12)
     for c, ev, err in rejected:
         # diagnostic only (DESIGN.md section 7): the end states above decide the property
         print("CONFORMANCE-DRIFT property=%s the real builder/table filler took a step Builder.tla/TableFill.tla do not allow: %s"
               % (prop, json.dumps(ev)[:300]))
     run.notes["trace_drift"] = len(rejected)
-    design_level(prop, tier, run)
+    log("  [%.0fs] traces validated" % (__import__("time").time() - t0))
+    design.result()
+    log("  [%.0fs] design-level models done" % (__import__("time").time() - t0))        # re-raises a ToolError of the background models
     return run.finish()
 
 
@@ -406,7 +427,7 @@ def design_level(prop, tier, run):
         return
     u = "U1" if tier == "quick" else "U2"
     if prop == "C17":
-        models = [("MC_Builder", "MC_Builder", u), ("MC_Builder", "MC_BuilderFifo", u)]
+        models = [("MC_FirstSets", "MC_FirstSets", u), ("MC_Builder", "MC_Builder", u), ("MC_Builder", "MC_BuilderFifo", u)]
     else:
         models = [("MC_TableFill", "MC_TableFill", u)]
     for module, cfg, univ in models:
